@@ -167,7 +167,11 @@ Inductive c13case :=
     (* client misuse [k] on a fresh bidi stream: what the offending call did on the wrapper and on gRPC *)
 | KMisuse (k : misuse) (rw rg : mres)
     (* wrap.UnwrapFully on a chain of wrappers with ids [ids] around a plain object [leaf]: id of the result *)
-| KUnwrap (ids : list Z) (leaf got : Z).
+| KUnwrap (ids : list Z) (leaf got : Z)
+    (* a named assumption of GrpcSpec (Wrap/GrpcFacts.v, entry [id] of the generated table): directed scenario
+       [sc] run against a real grpc.Server on bufconn, the hand-written transcript a real connection must
+       give, and the transcript observed *)
+| KFact (id : Z) (sc : scenario) (expect tg : transcript).
 
 Definition mres_eqb (a b : mres) : bool :=
   match a, b with
@@ -187,6 +191,7 @@ Definition agrees (c : c13case) : bool :=
   | KShape m a b cw => cw =? code_of (newstream_lookup m a b)
   | KMisuse k rw rg => mres_eqb rw (w_misuse fx_now k) && mres_eqb rg (g_misuse k)
   | KUnwrap ids leaf got => got =? obj_id (unwrap_fully (mk_chain ids leaf))
+  | KFact _ sc _ tg => transcript_eqb tg (grpc_run sc)
   end.
 
 Definition shape_of_method (m : Z) : option (bool * bool) :=
@@ -204,6 +209,7 @@ Definition C13_ok (c : c13case) : bool :=
       end
   | KMisuse k rw rg => mres_eqb rw rg
   | KUnwrap ids leaf got => got =? leaf     (* the innermost object, whatever the wrappers *)
+  | KFact _ _ expect tg => transcript_eqb tg expect   (* observed = what the fact says; no model involved *)
   end.
 
 Definition C13_guard (c : c13case) : bool :=
@@ -213,6 +219,9 @@ Definition C13_guard (c : c13case) : bool :=
   | KShape _ _ _ _ => true
   | KMisuse _ _ _ => true
   | KUnwrap _ _ _ => true
+    (* the entry is one GrpcSpec agrees with (proved for the whole generated table on every run:
+       GrpcFactsProofs.fact_table_matches_spec) *)
+  | KFact _ sc expect _ => transcript_eqb (grpc_run sc) expect
   end.
 
 (* (former class 3, repaired: the client calls SendMsg after CloseSend, or CloseSend a second time: the
